@@ -362,7 +362,46 @@ def rule_helpers(rep, inst, R="C03.helpers"):
                     member_tables.append(dd)
         tables = tables or member_tables
         if not tables:
-            rep.inconclusive(R, lab, "popcount table", where=d.where(fn), detail="no 256-entry table found in count()")
+            # no lookup table: a helper that counts the bits of a block (a SWAR popcount, std::popcount behind a wrapper) - folded exactly on block
+            # values that exercise every byte lane: single bits, all ones, alternating patterns
+            helper = None
+            for c_ in ir.walk_expr(fn):
+                if c_.get("kind") == "CallExpr" and ir.ekids(c_) and len(ir.ekids(c_)) == 2:
+                    cal_ = ir.strip(ir.ekids(c_)[0])
+                    tg_ = d.by_id.get((cal_.get("referencedDecl") or {}).get("id")) if cal_.get("kind") == "DeclRefExpr" else None
+                    if tg_ is not None and ir.body(tg_) is not None and ir.in_repo(tg_) and len(ir.params(tg_)) == 1 and trange.type_range(ir.qtype(ir.params(tg_)[0])) is not None:
+                        helper = (c_, tg_)
+                        break
+            if helper is None:
+                rep.inconclusive(R, lab, "popcount table", where=d.where(fn), detail="no 256-entry table found in count()")
+            else:
+                call_, tg_ = helper
+                pid_ = ir.params(tg_)[0].get("id")
+                vals_ = sorted({0, full, 0x5555555555555555 & full, 0xAAAAAAAAAAAAAAAA & full, 0x0F0F0F0F0F0F0F0F & full} | {1 << k_ for k_ in range(W)} | {full ^ (1 << k_) for k_ in range(W)})
+                badv = None
+                try:
+                    for v_ in vals_:
+                        # the call itself, with the block value in the helper's parameter: argument conversions included
+                        fake = ceval.Ctx(d, {pid_: v_})
+                        got = ceval._straight_line(tg_, [], fake, {pid_: ceval.conv(v_, ir.qtype(ir.params(tg_)[0]))}) if ceval._single_return(tg_)[0] is None else None
+                        if got is None:
+                            ret_, _ = ceval._single_return(tg_)
+                            got = ceval.ev(ir.ekids(ret_)[0], fake)
+                        if got != bin(v_).count("1"):
+                            badv = (v_, got)
+                            break
+                except ceval.UB as ex:
+                    badv = (v_, "undefined behaviour: %s" % ex)
+                except ceval.Unknown as ex:
+                    rep.inconclusive(R, lab, "popcount helper %s" % tg_.get("name"), where=d.where(tg_), detail=str(ex))
+                    badv = "?"
+                if badv == "?":
+                    pass
+                elif badv:
+                    rep.violates(R, lab, "popcount helper %s" % tg_.get("name"), where=d.where(tg_), scenario="block value %#x" % badv[0],
+                                 detail="%s(%#x) is %s, the block has %d bit(s) set (folded with the integer promotions of the block type)" % (tg_.get("name"), badv[0], badv[1], bin(badv[0]).count("1")))
+                else:
+                    rep.holds(R, lab, "popcount helper %s" % tg_.get("name"), where=d.where(tg_), detail="%d block values: every single bit, every single hole, patterns" % len(vals_))
         else:
             tv = tables[0]
             init = ir.strip(ir.ekids(tv)[-1])
@@ -2203,6 +2242,70 @@ def rule_grow(rep, inst, R="C03.grow"):
 
 # ---------------------------------------------------------------------------------------------------------------------
 # C03.cmp - comparisons decided by the operand types alone
+def rule_eqsize(rep, inst, R="C03.cover"):
+    """operator== answers `true` only on paths that have established that the two sizes are equal (bitsets of different length are never equal,
+    whatever their blocks - a view over a prefix of the same memory included)"""
+    d = inst.d
+    for cname, kind, fn in inst.fns:
+        if cname != "xdynamic_bitset_base" or fn.get("name") != "operator==":
+            continue
+        lab = label(cname, kind, fn, inst)
+        try:
+            paths = flow.function_paths(fn, with_ctor_inits=False)
+        except cj.AnalysisBroken:
+            continue
+        bools = {}
+        for v in ir.walk_expr(fn):
+            if v.get("kind") == "VarDecl" and ir.ekids(v) and ir.qtype(v).replace("const ", "").strip() == "bool":
+                bools[v.get("name")] = ir.sx(ir.ekids(v)[-1])
+
+        def size_eq(t, truth):
+            """does condition t with this outcome establish m_size == rhs.m_size?"""
+            while t[0] == "cast":
+                t = t[3]
+            if t[0] == "ref" and t[1] in bools:
+                return size_eq(bools[t[1]], truth)
+            if t[0] == "un" and t[1] == "!":
+                return size_eq(t[2], not truth)
+            if t[0] == "bin" and t[1] in ("==", "!="):
+                names = []
+                for side in (t[2], t[3]):
+                    while side[0] == "cast":
+                        side = side[3]
+                    if (side[0] == "mem" and side[2] == "m_size") or (side[0] == "call" and side[1][0] == "mem" and side[1][2] == "size" and len(side) == 2):
+                        names.append(side[1] if side[0] == "mem" else side[1][1])
+                if len(names) == 2 and names[0] != names[1]:
+                    return truth == (t[1] == "==")
+            return False
+        bad = None
+        undecided = None
+        for path in paths:
+            end = path[-1]
+            if end[0] != "return" or not ir.ekids(end[1]):
+                continue
+            established = any(st[0] == "cond" and size_eq(ir.sx(st[1]), st[2]) for st in path)
+            rv = ir.sx(ir.ekids(end[1])[0])
+            while rv[0] == "cast":
+                rv = rv[3]
+            if rv == ("lit", "false"):
+                continue
+            if established:
+                continue
+            if rv == ("lit", "true"):
+                bad = bad or (end[1], "a path answers `true` without having compared the two sizes: %s" % "; ".join(
+                    "%s is %s" % (d.text(st[1])[:40], st[2]) for st in path if st[0] == "cond")[:160])
+            else:
+                # a computed answer: it must contain the size comparison itself
+                if not any(size_eq(x, True) for x in ir.subterms(rv) if isinstance(x, tuple)):
+                    undecided = undecided or (end[1], "the answer `%s` is computed on a path that did not compare the sizes" % ir.show(rv)[:50])
+        if bad:
+            rep.violates(R, lab, "equal only if the sizes are equal", where=d.where(bad[0]), detail=bad[1])
+        elif undecided:
+            rep.inconclusive(R, lab, "equal only if the sizes are equal", where=d.where(undecided[0]), detail=undecided[1])
+        else:
+            rep.holds(R, lab, "equal only if the sizes are equal", where=d.where(fn), detail="%d paths" % len(paths))
+
+
 def rule_cmp(rep, inst):
     d = inst.d
     R = "C03.cmp"
@@ -2301,6 +2404,7 @@ def run(tier):
         rule_blocks(rp, inst)
         rule_grow(rp, inst)
         rule_cover(rp, inst)
+        rule_eqsize(rp, inst)
         rule_cmp(rp, inst)
     for bt in sorted(insts, key=lambda b: WIDTH[b]):
         inst = insts[bt]
